@@ -13,7 +13,7 @@ RULE = ("read_meme: Meme.tla builds every valid layout with <= MaxMotifs motifs 
         "genomes with lower-case and N runs. distinct_nontrivial = layouts with several motifs or ending in a matrix row, and "
         "locus calls with an edge-touching locus or several sets.")
 EXHAUSTIVE = True
-KEYS = ("genome", "sets", "allowed", "inw", "outw", "jit", "minc", "maxc", "nloci", "sig", "insig")
+KEYS = ("genome", "sets", "allowed", "inw", "outw", "jit", "minc", "maxc", "nloci", "sig", "insig", "gaps")
 
 
 def run(ctx):
